@@ -102,6 +102,11 @@ func MakeRemoteSource(sourceType string, u *url.URL, subPath string) (RemoteSour
 }
 
 func makeRemoteSource(sourceType string, u *url.URL, subPath string) (RemoteSource, error) {
+	// The parser rejects this earlier, but MakeRemoteSource gets here directly.
+	if u.User != nil {
+		return RemoteSource{}, fmt.Errorf("must not use username or password in URL portion")
+	}
+
 	typeImpl, ok := remoteSourceTypes[sourceType]
 	if !ok {
 		if sourceType == u.Scheme {
